@@ -15,7 +15,7 @@
 (*   alive  : token -> [a, vals]   live entities (vals = <<<<id,payload>>>>)*)
 (*   issued : set of tokens ever returned by a create of this world        *)
 (*   cap    : capacity per archetype (sequence, index a+1)                 *)
-(*   rm     : number of removals per archetype                             *)
+(*   rm, cr : number of removals / creations per archetype                 *)
 (*   dirs   : direct-handle records [d, t, a, born, src] (born = rm at      *)
 (*            minting; src = where it was minted: mint-all, to_direct,     *)
 (*            a closure parameter, a closure parameter of ecs_iter_destroy!)*)
@@ -60,7 +60,7 @@ ZCount(w)    == Cardinality({t \in DOMAIN w.alive :
 
 Zeros == [i \in 1..NA |-> 0]
 NewWorld(caps) ==
-    [alive |-> <<>>, issued |-> {}, cap |-> caps, rm |-> Zeros, dirs |-> {},
+    [alive |-> <<>>, issued |-> {}, cap |-> caps, rm |-> Zeros, cr |-> Zeros, dirs |-> {},
      evc |-> [i \in 1..NA |-> {}], evd |-> [i \in 1..NA |-> {}],
      aver |-> [i \in 1..NA |-> <<0, 1>>], wrapped |-> [i \in 1..NA |-> FALSE],
      awrapped |-> [i \in 1..NA |-> FALSE], deadD |-> {}]
@@ -75,15 +75,24 @@ NewWorld(caps) ==
 (* (no removal from its archetype since it was minted).                    *)
 (***************************************************************************)
 IsDirKey(ky) == ky.kd \in {"d", "da"}
+\* records of token k with no REMOVAL from their archetype since minting: the handle may still be
+\* accepted; with no structural change at all (no creation either) it must be accepted (C09: "stays
+\* accepted for as long as its archetype undergoes no later structural change").  An implementation
+\* that also invalidates direct handles on creation therefore satisfies the contract.
 ValidDirs(w, k) == {r \in w.dirs : r.d = k /\ r.born = w.rm[r.a + 1]}
+MustDirs(w, k)  == {r \in ValidDirs(w, k) : r.bornc = w.cr[r.a + 1]}
 KnownDir(w, k)  == \E r \in w.dirs : r.d = k
 DirTargets(w, k) == {r.t : r \in ValidDirs(w, k)}
 
 EntAccepted(w, k, lv, at) == k \in DOMAIN w.alive /\ (lv = "w" \/ w.alive[k].a = at)
 DirAccepted(w, k, lv, at) == \E r \in ValidDirs(w, k) : (lv = "w" \/ r.a = at)
+DirMust(w, k, lv, at)     == \E r \in MustDirs(w, k) : (lv = "w" \/ r.a = at)
 
+\* may the call accept the key / must it accept the key
 Accepted(w, ky) == IF IsDirKey(ky) THEN DirAccepted(w, ky.k, ky.lv, ky.at)
                    ELSE EntAccepted(w, ky.k, ky.lv, ky.at)
+MustAccept(w, ky) == IF IsDirKey(ky) THEN DirMust(w, ky.k, ky.lv, ky.at)
+                     ELSE EntAccepted(w, ky.k, ky.lv, ky.at)
 Target(w, ky)   == IF IsDirKey(ky) THEN CHOOSE t \in DirTargets(w, ky.k) : TRUE ELSE ky.k
 Foreign(w, ky)  == IF IsDirKey(ky) THEN ~KnownDir(w, ky.k) ELSE ky.k \notin w.issued
 WrongAccept(w, ky) == IF Foreign(w, ky) THEN <<"C03">>
@@ -119,7 +128,7 @@ AnomTags(kind) ==
                    "drop_during_observation"}                         -> <<"C04", "C10", "C03">>
       [] kind \in {"read_of_non_live"}                                -> <<"C02", "C03", "C10", "C04">>
       [] kind \in {"corrupt_Th", "corrupt_Tw", "misaligned_Tal"}       -> <<"C02">>
-      [] kind \in {"slice_len", "bslice_len"}                         -> <<"C06">>
+      [] kind \in {"slice_len", "bslice_len", "iter_count", "iter_last"} -> <<"C06">>
       [] kind \in {"listed_entity_not_viewable",
                    "listed_entity_not_borrowable"}                    -> <<"C01", "C06">>
       [] kind \in {"resolve_oob"}                                     -> <<"C03", "C01">>
@@ -203,7 +212,7 @@ ArchObsViol(w, wid, x, keep, at) ==
     \cup (IF "dump" \in DOMAIN x THEN RepViol(w, wid, a, x, at) ELSE {})
 
 \* direct-handle records minted by the mint-all of this observation
-MintRecs(w, x) == {[d |-> x.mint[i][2][2], t |-> x.mint[i][1], a |-> x.a, born |-> w.rm[x.a + 1], src |-> "mint"] :
+MintRecs(w, x) == {[d |-> x.mint[i][2][2], t |-> x.mint[i][1], a |-> x.a, born |-> w.rm[x.a + 1], bornc |-> w.cr[x.a + 1], src |-> "mint"] :
                       i \in {j \in DOMAIN x.mint : x.mint[j][2][1] = "d"}}
 
 \* C09: a token minted for two different live entities at the same time
@@ -249,13 +258,16 @@ EntProbeViol(w, pr, at) ==
 DirProbeViol(w, pr, at) ==
     LET k == pr.k
         tg == DirTargets(w, k)
-        valid == tg # {}
+        may == tg # {}
+        must == MustDirs(w, k) # {}
         known == KnownDir(w, k)
+        tags == IF \E r \in ValidDirs(w, k) : r.src = "iterd" THEN <<"C09", "C07">> ELSE <<"C09">>
+        good(r) == \A t \in tg : GoodFor(w, r, t) \/ (r[1] = "d" /\ r[2] = k)
     IN UNION {
-         IF valid THEN If(\E t \in tg : ~GoodFor(w, g[1], t) /\ ~(g[1][1] = "d" /\ g[1][2] = k),
-                          {V(LiveTags(w, g[1], CHOOSE t \in tg : TRUE,
-                                      IF \E r \in ValidDirs(w, k) : r.src = "iterd" THEN <<"C09", "C07">> ELSE <<"C09">>),
-                             at, "current direct handle is refused or designates another entity")})
+         IF must THEN If(~good(g[1]),
+                         {V(LiveTags(w, g[1], CHOOSE t \in tg : TRUE, tags), at, "current direct handle is refused or designates another entity")})
+         ELSE IF may THEN If(g[1][1] # "n" /\ ~good(g[1]),
+                         {V(LiveTags(w, g[1], CHOOSE t \in tg : TRUE, tags), at, "direct handle (no removal since it was issued) designates another entity")})
          ELSE IF known THEN If(g[1][1] # "n" /\ ~(\E r \in w.dirs : r.d = k /\ w.awrapped[r.a + 1]),
                                {V(<<"C09">>, at, "direct handle accepted after a removal from its archetype")})
          ELSE If(g[1][1] \notin {"n", "p"}, {V(<<"C03">>, at, "lookup accepts a foreign direct handle")})
@@ -273,7 +285,7 @@ ProbeClasses(w, o) ==
               [] cls = "stale" -> o.pe[i].k \notin DOMAIN w.alive /\ o.pe[i].k \in w.issued
               [] cls = "forged" -> o.pe[i].k \notin DOMAIN w.alive /\ o.pe[i].k \notin w.issued})
         dir(cls) == Cardinality({i \in DOMAIN o.pd :
-            CASE cls = "cur" -> DirTargets(w, o.pd[i].k) # {}
+            CASE cls = "cur" -> MustDirs(w, o.pd[i].k) # {}
               [] cls = "dead" -> DirTargets(w, o.pd[i].k) = {} /\ KnownDir(w, o.pd[i].k)
               [] cls = "foreign" -> DirTargets(w, o.pd[i].k) = {} /\ ~KnownDir(w, o.pd[i].k)})
     IN <<ent("live"), ent("stale"), ent("forged"), dir("cur"), dir("dead"), dir("foreign")>>
@@ -305,19 +317,28 @@ WorldEventViol(w, o, at) ==
 (***************************************************************************)
 \* light observation (long histories): len()/capacity()/is_empty() only
 ObserveLight(w, o, keep, at) ==
-    [w |-> [w EXCEPT !.cap = [i \in 1..NA |-> o.ar[i].cap]], pc |-> <<0, 0, 0, 0, 0, 0>>,
+    LET minted == UNION {MintRecs(w, o.ar[i]) : i \in DOMAIN o.ar}
+        mkeys == {<<m.d, m.t, m.born>> : m \in minted}
+    IN
+    [w |-> [w EXCEPT !.cap = [i \in 1..NA |-> o.ar[i].cap],
+                     !.dirs = {r \in @ : <<r.d, r.t, r.born>> \notin mkeys} \cup minted],
+     pc |-> <<0, 0, 0, 0, 0, 0>>,
      v |-> UNION {LET x == o.ar[i]  n == LenOf(w, x.a) IN
                      If(x.len # n, {V(<<"C12">>, at, "len() differs from the number of live entities")})
                 \cup If(x.emp # (n = 0), {V(<<"C12">>, at, "is_empty() disagrees with the live entities")})
                 \cup If(x.cap < x.len \/ x.cap < w.cap[x.a + 1], {V(<<"C12">>, at, "capacity() below len() or decreased")})
                 \cup If(x.a \in keep /\ x.cap # w.cap[x.a + 1], {V(<<"C12">>, at, "capacity() changed although there was room")})
+                \cup If(\E j \in DOMAIN x.mint : x.mint[j][2][1] # "d", {V(<<"C09", "C01">>, at, "to_direct rejects a live entity")})
+                \cup If({x.mint[j][1] : j \in DOMAIN x.mint} # LiveOn(w, x.a), {V(<<"C06", "C01">>, at, "entities() differs from the live entities")})
                   : i \in DOMAIN o.ar}]
 
 ObserveWorld(w, o, keep, at) ==
     IF "light" \in DOMAIN o THEN ObserveLight(w, o, keep, at) ELSE
     LET archViol == UNION {ArchObsViol(w, o.w, o.ar[i], keep, at) : i \in DOMAIN o.ar}
         minted   == UNION {MintRecs(w, o.ar[i]) : i \in DOMAIN o.ar}
-        w1 == [w EXCEPT !.dirs = @ \cup minted,
+        \* a record re-minted now (same token, entity and removal count) supersedes its older copies
+        mkeys == {<<m.d, m.t, m.born>> : m \in minted}
+        w1 == [w EXCEPT !.dirs = {r \in @ : <<r.d, r.t, r.born>> \notin mkeys} \cup minted,
                         !.cap  = [i \in 1..NA |-> o.ar[i].cap],
                         !.aver = [i \in 1..NA |-> IF "dump" \in DOMAIN o.ar[i] THEN o.ar[i].dump.ver ELSE w.aver[i]]]
         probeViol == UNION {EntProbeViol(w1, o.pe[i], at) : i \in DOMAIN o.pe}
@@ -359,7 +380,7 @@ VisitStep(w, q, v, visited, setp, destroyAllowed, at) ==
         rwCols == IF okArch THEN {bidx[i] : i \in (NumRo(params) + 1)..Len(bseq)} ELSE {}
         hasD   == "d" \in DOMAIN v
         w1 == IF hasD /\ okTok
-              THEN [w EXCEPT !.dirs = @ \cup {[d |-> v.d, t |-> t, a |-> a, born |-> w.rm[a + 1],
+              THEN [w EXCEPT !.dirs = @ \cup {[d |-> v.d, t |-> t, a |-> a, born |-> w.rm[a + 1], bornc |-> w.cr[a + 1],
                                                  src |-> IF destroyAllowed THEN "iterd" ELSE "visit"]}] ELSE w
         w2 == IF okTok /\ setp # <<>> /\ rwCols # {}
               THEN [w1 EXCEPT !.alive[t].vals = SetVals(@, rwCols, setp[1])] ELSE w1
